@@ -16,23 +16,27 @@ def run(ctx):
     common.standard(
         ctx, harness="hC20", extracted="C20_model", driver_dir="C20",
         rule=("non-trivial: grpc/json cases with >=2 entries or metadata on the first entry; scenario cases with >=2 shots "
-              "and at least one call definition carrying metadata; any case with reflect_metadata or planned target answers; "
+              "and at least one call definition carrying metadata; any case with reflect_metadata, planned target answers, "
+              "think time or latencies; "
               "distinct = distinct case lines"),
         key_fn=key_fn,
         translators=[("grpcstatus", "GrpcStatusGen.v"), ("grpcdial", "GrpcDialGen.v")],
-        bridge_files=["Gen/GrpcStatus_bridge.v", "Gen/GrpcDial_bridge.v", "Properties/C20_wire.v"],
+        bridge_files=["Gen/GrpcStatus_bridge.v", "Gen/GrpcDial_bridge.v", "Properties/C20_wire.v", "Properties/C20_time.v"],
         trusted=[
             "translator harness/cmd/translate grpcstatus (ConvertGrpcStatus switch -> Gen/GrpcStatusGen.v, used for the sample codes)",
             "translator harness/cmd/translate grpcdial (dial options of MakeGRPCConnect, dial sites, InvokeRpc call options, metadata expression of every "
-            "outgoing context in components/guns/grpc/**.go -> Gen/GrpcDialGen.v, bridged by Gen/GrpcDial_bridge.v)",
+            "outgoing context, (function, parent context, duration) of every context.WithTimeout/WithDeadline in components/guns/grpc/**.go "
+            "-> Gen/GrpcDialGen.v, bridged by Gen/GrpcDial_bridge.v)",
             "extraction: ExtrOcamlBasic only; OCaml driver ocaml/C20/main.ml + ocaml/common/conv.ml",
             "correspondence harness harness/cmd/hC20 + harness/internal/a20 (in-process examples/grpc/server with reflection and a recording "
-            "interceptor that can answer with a planned status instead of running the handler; real grpc/json provider, grpc gun, grpc/scenario "
+            "interceptor that can answer with a planned status instead of running the handler, after a planned latency; real grpc/json provider, grpc gun, grpc/scenario "
             "provider and gun, real engine in mode e)",
             "modelled, not verified: protobuf/JSON codec (oracle `fits`, instantiated for the example service by Model/GrpcExample.v: "
             "string/int64 fields only), text/template (oracles parse_t/exec_t), reflection client, HTTP/2 transport, the target's answers",
         ],
-        assumptions=["grpc-go delivers outgoing-context metadata and the deadline unchanged (keys lower-cased)",
+        assumptions=["grpc-go hands the remaining time of the context's deadline to the server (grpc-timeout) and fails a call whose context "
+                     "has expired without sending it; transit time on loopback is below 500 ms (recorded deadlines are rounded to seconds)",
+                     "grpc-go delivers outgoing-context metadata and the deadline unchanged (keys lower-cased)",
                      "a grpc-go connection dialled with credentials / user-agent / authority options only never re-sends an answered call (policy no_retry)",
                      "jhump/protoreflect dynamic.Message.UnmarshalJSON behaves as the interp function on string/int64 fields"],
     )
